@@ -165,6 +165,14 @@ func (mf *File) init(strict bool) error {
 	}
 	// Check that major versions match dependency versions.
 	for m, dep := range mf.Deps {
+		if strict && dep.Version == "" {
+			// From language version v0.17.0 the schema allows a dependency
+			// without a version, for the benefit of cue.mod/local-module.cue
+			// and replace-only entries. A module.cue file that is parsed
+			// strictly (for example one fetched from a registry) must always
+			// say which version it requires; see also #Strict in schema.cue.
+			return fmt.Errorf("no version specified for dependency %q", m)
+		}
 		vers, err := module.NewVersion(m, dep.Version)
 		if err != nil {
 			return fmt.Errorf("cannot make version from module %q, version %q: %v", m, dep.Version, err)
